@@ -177,6 +177,13 @@ def build_inputs(tier):
     for s in ["x = 1 +\r2\n", "x = 1\n \r)))\n", "x =\xa01\n", "x = 1\x0b\n", "x = (1,\u2003 2)\n", "x = f'abc\\\ndef\nghi'\n", "f'abc\\\ndef'\n",
               "f'\\xz'\n", "f'\\N{foo}'\n", "x = f'\\u12'\n", "if x:\n" + "".join(" " * (i + 1) + "if x:\n" for i in range(1, 102)) + " " * 103 + "pass\n"]:
         cases.append(("kf-neighbourhood", s))
+    # a single-quoted string continued ONCE by a backslash and then left open: the tokenizer joins the following lines, only the
+    # evaluation of the literal refuses it (every prefix; f-strings: KF-C02-continued-fstring-runaway); also a bare CR inside quotes
+    for pre in ["", "r", "R", "b", "B", "rb", "bR", "u", "U", "Rb"]:
+        for q in ["'", '"']:
+            for body in ["abc\\\ndef\nghi", "a\\\n\n", "\\\nx\ny = 2", "abc\\\r\ndef\r\nghi", "a\rb"]:
+                for ctx in ["x = {}\n", "f({})\nz = 1\n", "{}\n"]:
+                    cases.append(("runaway-string", ctx.format(pre + q + body + q)))
     for p in progs[: (60 if tier == "quick" else 3000)] + nested:
         lines = p.split("\n")
         for i in range(1, len(lines)):
